@@ -379,6 +379,31 @@ def extract_unit(repo, unit_dir, out_path, variant=None):
             if len(hits) < kk:
                 raise LostAnchor('fn %s: R8 anchor /%s/ occurrence %d not found' % (it['name'], ta['regex'], kk))
             cut = hits[kk - 1]
+            if ta.get('whole_statement'):
+                # extend the kept prefix to the end of the statement that starts on the anchor line
+                ls = text.rfind('\n', 0, cut - 1) + 1
+                depth = 0
+                j = ls
+                end = None
+                while j < cb2:
+                    if m2[j]:
+                        ch = text[j]
+                        if ch in '([{':
+                            depth += 1
+                        elif ch in ')]}':
+                            depth -= 1
+                            if depth == 0 and ch == '}':
+                                rest = text[j + 1:cb2].lstrip()
+                                if not (rest.startswith('else') or rest.startswith('.') or rest.startswith('?') or rest.startswith(';')):
+                                    end = j + 1
+                                    break
+                        elif ch == ';' and depth == 0:
+                            end = j + 1
+                            break
+                    j += 1
+                if end is None:
+                    raise LostAnchor('fn %s: R8 anchor statement has no end' % it['name'])
+                cut = end
             dropped = text[cut:cb2]
             segs.replace(cut, cb2, '\n' + ta['replacement'] + '\n', 'rewrite', 'R8 tail abstraction')
             log.append({'rule': 'R8 tail abstraction: body after the anchor line replaced by an opaque call (arbitrary result)', 'item': it['name'],
